@@ -53,6 +53,84 @@ theorem osSendStep_ok (fl : Flavour) (hf : fl.fam = .os) (s h hd v t f q) :
       exact h1.trans (StepOk.ofSame (osSendFinish_ok fl hd _).1 (osSendFinish_ok fl hd _).2 rfl rfl rfl rfl)
 
 
+theorem osSendFail_ok (fl : Flavour) (s h hd v tag t f q) :
+    StepOk fl s (.bsend t f h [] [v] q) (osSendFail s h hd v tag).1 (osSendFail s h hd v tag).2 [] := by
+  unfold osSendFail
+  have h1 : StepOk fl s (.bsend t f h [] [v] q) ((s.eraseHandle h).giveBack [v])
+      (.fin { tag := tag, back := [v] }) [] := by
+    refine ⟨fun hi => hi.frame (by unfold St.giveBack St.eraseHandle; frame), ?_, ?_, ?_, ?_, ?_⟩ <;>
+      (unfold St.eraseHandle; acct)
+  exact h1.trans (StepOk.ofSame (osSendFinish_ok fl hd _).1 (osSendFinish_ok fl hd _).2 rfl rfl rfl rfl)
+
+theorem osSendStart_ok (fl : Flavour) (hf : fl.fam = .os) (cfg s h hd v t f q) :
+    StepOk fl s (.bsend t f h [] [v] q) (osSendStart cfg s t h hd v).1 (osSendStart cfg s t h hd v).2 [] := by
+  unfold osSendStart
+  split
+  · split
+    · exact osSendFail_ok ..
+    · have hk : (Inv fl s → Inv fl ({ (s.eraseHandle h) with osw := true } : St)) ∧
+          SameAcct s ({ (s.eraseHandle h) with osw := true } : St) := by
+        unfold St.eraseHandle; upd
+      exact StepOk.ofSame hk.1 hk.2 rfl rfl rfl rfl
+  · exact osSendStep_ok fl hf ..
+
+/-- the later steps of the operations that are several atomic steps in the concurrent specification -/
+theorem stgStep_ok {fl : Flavour} {s t k h sent rest s' p'} (hs : stgStep fl s t k h sent rest = some (s', p')) :
+    StepOk fl s (.stg t k h sent rest) s' p' [] := by
+  unfold stgStep at hs
+  split at hs
+  · -- 1: second look at `receiver_dropped`
+    split at hs
+    · cases hs
+      have h1 : StepOk fl s (.stg t k h sent rest) (({ s with osw := false } : St).giveBack rest)
+          (.fin { tag := .closed, sent := sent, back := rest }) [] := by
+        refine ⟨fun hi => hi.frame (by unfold St.giveBack; frame), ?_, ?_, ?_, ?_, ?_⟩ <;> acct
+      have h2 := ok_trans (osDecSenders_ok fl (({ s with osw := false } : St).giveBack rest)) (teardownIfLast_ok fl _)
+      exact h1.trans (StepOk.ofSame h2.1 h2.2 rfl rfl rfl rfl)
+    · cases hs
+      exact StepOk.ofSame id (SameAcct.refl s) rfl rfl rfl rfl
+  · split at hs
+    · -- 2: publish
+      rename_i hk
+      split at hs
+      · rename_i v
+        split at hs
+        · rename_i he
+          cases hs
+          refine ⟨fun hi => ?_, ?_, ?_, ?_, ?_, ?_⟩
+          · have hc : capOk fl ({ (s.push h.idx [v]) with os := .sent, osw := false } : St) :=
+              capOk_os_push hk.2 hi he v _ rfl rfl (by simp)
+            refine ⟨?_, hi.sub, hi.cons, hi.nodrop, hc, ?_, hi.tagR⟩
+            · simp [St.push, hi.seq]
+            · simp [St.push, hi.tagS]
+          all_goals acct
+        · cases hs
+      · cases hs
+    · split at hs
+      · -- 3: the consumed sender is dropped
+        rename_i hk
+        cases hs
+        obtain ⟨_, _, hr⟩ := hk
+        subst hr
+        have h2 := ok_trans (osDecSenders_ok fl s) (teardownIfLast_ok fl _)
+        exact StepOk.ofSame h2.1 h2.2 rfl rfl rfl rfl
+      · split at hs
+        · rename_i hk
+          cases hs
+          obtain ⟨_, hs0, hr⟩ := hk
+          subst hs0 hr
+          have hu : (Inv fl s → Inv fl ({ s with sc := wdec s.sc } : St)) ∧ SameAcct s ({ s with sc := wdec s.sc } : St) := by upd
+          exact StepOk.ofSame hu.1 hu.2 rfl rfl rfl rfl
+        · split at hs
+          · rename_i hk
+            cases hs
+            obtain ⟨_, hs0, hr⟩ := hk
+            subst hs0 hr
+            have hu : (Inv fl s → Inv fl ({ s with sc := wdec s.sc } : St)) ∧ SameAcct s ({ s with sc := wdec s.sc } : St) := by upd
+            have h2 := ok_trans hu (teardownIfLast_ok fl _)
+            exact StepOk.ofSame h2.1 h2.2 rfl rfl rfl rfl
+          · cases hs
+
 theorem create_ok (fl s t op f h vs) :
     StepOk fl s (.fresh t op) (s.create vs) (.bsend t f h [] vs 0) vs := by
   refine ⟨fun hi => hi.frame (frame_create _ _), ?_, ?_, ?_, ?_, ?_⟩ <;> acct
@@ -85,7 +163,7 @@ theorem startSend_ok (fl cfg s t f h vs) :
       · -- oneshot
         rename_i hf
         split
-        · exact ⟨_, Or.inr rfl, hc.trans (osSendStep_ok fl hf ..)⟩
+        · exact ⟨_, Or.inr rfl, hc.trans (osSendStart_ok fl hf ..)⟩
         · exact ⟨[], Or.inl rfl, StepOk.ofSameFin (same_ok fl s)⟩
       · rename_i hf
         split
